@@ -39,10 +39,40 @@ oracles and the clauses of the property they cover
                    labels (compared as a multiset of labelled cells, i.e. independent of the row / column order chosen by
                    the implementation) for ALL shapes in {1,2,3}^3.
 
-NOT covered by this tier: unbounded sizes and histories (bounded enumeration only); descriptor values that are not int /
-float / str scalars (vectors, None, mixed types); hdf5 / pkl round trips (C16); aliasing between the results and their inputs
-(C12: here only `copy` is compared by value); what bin_time should do with additional time descriptors (the statement is
-silent: see C11_findings.md, observation O1); get_measurements_tensor; the exact text of the 'bins' descriptor.
+Dimension sweeps (tools/SWEEP_BRIEF.md; the same oracles and clauses, inputs varied along further dimensions through optional
+keys of the case dicts; domains named '...[sweep]' and C11/fresh-interpreter, function `_sweeps`)
+  typed data        measurements as int16 / uint8 / int64 / float32 (mdtype; narrow integers at the top of their range so that the
+                    sum of two overflows): moved values are the same values, bin / condition means are the means of the values as
+                    real numbers (float32: tolerance 1e-6); typed label / key / time arrays (uint8, int16 incl. negative values,
+                    float32, integer time axis with integer bins).
+  units             measurements in units of 1e-26 / 1e-20 / 1e9 / 1e12 (scale; compared in those units, relative tolerance only:
+                    `_eq` has no absolute threshold), time axis / float labels / sort keys in units of 1e-12, in steps of 1 (1e-3,
+                    0.25) on an offset of 1e6 (1e3), starting below 0 (tunit, names, type).
+  containers        descriptors as tuple besides list / ndarray (container), lists of values for subset_* as tuple / ndarray
+                    (argform), descriptor dicts filled in reversed key order (korder), vector-valued (2-D) descriptors on the obs /
+                    channel / time axis that are carried along and must stay with their item (vec; never used as `by`).
+  repeated values   (already exhaustive in C11/labels) + seeded label sequences of length 9..40 over 4 / 5 values.
+  sizes             label sequences up to 40 items, sort keys over up to 8 values.
+  call sequences    orc_history keys keep (the datasets a step is applied to are unchanged by it -- sort_by, in place, excepted --
+                    and every dataset returned in the course of a history is unchanged at its end) and twice (the identical call
+                    again gives the identical result; before an in-place sort the dataset is queried, so that answers kept per
+                    object would be stale afterwards); orc_labels / orc_bin / orc_convert: the input is unchanged after the call;
+                    orc_sort / orc_bin key twice.
+  environment       C11/fresh-interpreter: new interpreters with other PYTHONHASHSEEDs satisfy the labels / history oracles on the
+                    same cases (sets of descriptor names and labels are iterated in another order).
+  order in tables   DataFrame round trip with the `channels` argument in reversed order and with the rows of the table handed over
+                    in reversed order (op ['df', chd, True, 'perm' | 'rows']; sweep domains only).
+  not applicable    competitor sets (no optimality claim), existing output files (C16), remainders.
+  PENDING TRIAGE    (fail on the unchanged tree, registrations behind `if False:  # pending triage`)
+                    time_as_observations / time_as_channels / to_df with a vector-valued descriptor on the axis they rearrange
+                    (K_VEC_TAO, K_VEC_TAC, K_VEC_DF); bin_time with the bins given as python lists (K_BIN_PYLIST).
+
+NOT covered by this tier: unbounded sizes and histories (bounded enumeration only); descriptor values that are None or of mixed
+types, vector-valued descriptors as the `by` of an operation; hdf5 / pkl round trips (C16); aliasing between the results and
+their inputs beyond the call-sequence clauses above (C12: writing into a result); what bin_time should do with additional time
+descriptors (the statement is silent: see C11_findings.md, observation O1); get_measurements_tensor; the exact text of the 'bins'
+descriptor; DataFrames that were filtered between to_df and from_df (not a round trip; from_df raises KeyError: 0 when row 0 is
+dropped and a column is constant).
 """
 import itertools
 import warnings
@@ -101,7 +131,7 @@ def _isnum(x):
 
 
 def _isseq(x):
-    return isinstance(x, (list, tuple)) or (isinstance(x, np.ndarray) and x.ndim > 0)
+    return x is not ANY and (isinstance(x, (list, tuple)) or (isinstance(x, np.ndarray) and x.ndim > 0))
 
 
 def _eq(a, b, tol=1e-9):
